@@ -1,3 +1,502 @@
-From Coq Require Import ZArith List.
-From PV Require Import Base.U64 C04.C04_Heap C03.C03_Model.
-Lemma placeholder : True. Proof. exact I. Qed.
+(* C03_Proofs.v — the lock/queue invariants of the condition-variable protocol over every
+   interleaving (inductive invariants of `step`), on top of the scheduler well-formedness WF. *)
+From Coq Require Import ZArith List Bool Arith Lia.
+From PV Require Import Base.U64 C04.C04_Heap C03.C03_Model C03.C03_WF.
+Import ListNotations.
+Local Open Scope Z_scope.
+
+(* ---- the scheduler blocks touch only st / ts / wk / wqo and the queues ---------------------- *)
+Definition ctl (r : thr) := (vcp r, err r, lk r, tpc r, prog r, opi r, held r).
+Definition sched_only (s s' : state) : Prop :=
+  (forall y, ctl (th s' y) = ctl (th s y)) /\ lown s' = lown s /\
+  (forall v, pend (vc s' v) = pend (vc s v)) /\ trace s' = trace s /\ now s' = now s /\ bad s' = bad s /\
+  lkd s' = lkd s /\ nvc s' = nvc s.
+
+Lemma so_refl s : sched_only s s.
+Proof. repeat split; auto. Qed.
+Lemma so_trans a b c : sched_only a b -> sched_only b c -> sched_only a c.
+Proof.
+  intros (A1 & A2 & A3 & A4 & A5 & A6 & A7 & A8) (B1 & B2 & B3 & B4 & B5 & B6 & B7 & B8).
+  split; [intros y; now rewrite B1|]. split; [congruence|]. split; [intros v; now rewrite B3|].
+  repeat split; congruence.
+Qed.
+
+Definition ckeeps (f : thr -> thr) : Prop := forall r, ctl (f r) = ctl r.
+Lemma so_updT s t f : ckeeps f -> sched_only s (updT s t f).
+Proof.
+  intros K. repeat split; auto. intros y. rewrite th_updT. destruct (Nat.eqb y t) eqn:E; auto.
+  apply Nat.eqb_eq in E. subst. apply K.
+Qed.
+Definition pkeeps (g : vcpu -> vcpu) : Prop := forall r, pend (g r) = pend r.
+Lemma so_updV s v g : pkeeps g -> sched_only s (updV s v g).
+Proof.
+  intros K. repeat split; auto. intros v'. rewrite vc_updV. destruct (Nat.eqb v' v) eqn:E; auto.
+  apply Nat.eqb_eq in E. subst. apply K.
+Qed.
+
+Lemma so_set_running s v : sched_only s (set_running s v).
+Proof. unfold set_running. destruct (runq (vc s v)) as [|[t|] r]; try apply so_refl. apply so_updT. intros r0; reflexivity. Qed.
+Lemma so_rotate s v : sched_only s (rotate s v).
+Proof.
+  unfold rotate. destruct (runq (vc s v)) as [|e r]; [apply so_refl|].
+  eapply so_trans; [|apply so_set_running].
+  eapply so_trans; [|apply so_updV; intros x; reflexivity].
+  destruct e; [apply so_updT; intros x; reflexivity|apply so_refl].
+Qed.
+Lemma so_rq_append s v x : sched_only s (rq_append s v x).
+Proof. apply so_updV. intros r; reflexivity. Qed.
+Lemma so_wqs s f : sched_only s (s_wqs s f).
+Proof. repeat split; auto. Qed.
+Lemma so_prepare_usleep s v t q e : sched_only s (prepare_usleep s v t q e).
+Proof.
+  unfold prepare_usleep.
+  eapply so_trans; [|apply so_set_running].
+  eapply so_trans; [|apply so_updV; intros x; reflexivity].
+  eapply so_trans; [apply so_updV with (g := fun x => v_runq x (tl (runq x))); intros x; reflexivity|].
+  eapply so_trans; [apply so_updT with (f := fun r => t_wk (t_ts (t_st r SLEEPING) e) WNone); intros x; reflexivity|].
+  destruct q; [|apply so_refl].
+  eapply so_trans; [apply so_wqs|]. apply so_updT. intros x; reflexivity.
+Qed.
+Lemma so_dequeue s x ns : sched_only s (dequeue s x ns).
+Proof.
+  unfold dequeue. eapply so_trans; [|apply so_updT; intros r; reflexivity].
+  destruct (wqo (th s x)); [|apply so_refl].
+  eapply so_trans; [apply so_wqs|]. apply so_updT. intros r; reflexivity.
+Qed.
+Lemma so_wake_by s va x : sched_only s (wake_by s va x).
+Proof.
+  unfold wake_by. destruct (Nat.eqb _ va).
+  - eapply so_trans; [apply so_dequeue|]. eapply so_trans; [|apply so_rq_append]. apply so_updV. intros r; reflexivity.
+  - eapply so_trans; [apply so_dequeue|]. apply so_updV. intros r; reflexivity.
+Qed.
+Lemma so_eject v : forall l s cnt, sched_only s (fst (eject s v l cnt)).
+Proof.
+  induction l as [|x r IH]; intros s cnt; simpl; [apply so_refl|].
+  eapply so_trans; [|apply IH].
+  eapply so_trans; [apply so_updT with (f := fun y => t_st y READY); intros y; reflexivity|].
+  eapply so_trans; [|apply so_rq_append]. apply so_updV. intros y; reflexivity.
+Qed.
+Lemma so_idle_decide s v cnt : forall y, ctl (th (idle_decide s v cnt) y) = ctl (th s y).
+Proof.
+  intros y. unfold idle_decide. destruct (_ || _); proj; [|reflexivity]. apply so_rotate.
+Qed.
+
+(* projections *)
+Lemma so_ctl s s' y : sched_only s s' -> ctl (th s' y) = ctl (th s y). Proof. intros H; apply H. Qed.
+Ltac ctl_fields H :=
+  let E := fresh "E" in
+  pose proof H as E; unfold ctl in E; inversion E; clear E.
+
+(* ---- lock ownership ------------------------------------------------------------------------- *)
+Record LI (s : state) : Prop := mkLI {
+  li_ho : forall t l, held (th s t) l = true -> lown s l = Some t;
+  li_pd : forall v w l, pend (vc s v) = Some (w, l) -> held (th s w) l = true /\ vcp (th s w) = v
+}.
+
+Definition li_same (s s' : state) : Prop :=
+  (forall y, held (th s' y) = held (th s y) /\ vcp (th s' y) = vcp (th s y)) /\ lown s' = lown s /\
+  (forall v, pend (vc s' v) = pend (vc s v)).
+Lemma li_refl s : li_same s s. Proof. repeat split; auto. Qed.
+Lemma li_trans a b c : li_same a b -> li_same b c -> li_same a c.
+Proof.
+  intros (A1 & A2 & A3) (B1 & B2 & B3). split; [|split].
+  - intros y. destruct (A1 y), (B1 y). split; congruence.
+  - congruence.
+  - intros v. now rewrite B3.
+Qed.
+Lemma li_so s s' : sched_only s s' -> li_same s s'.
+Proof.
+  intros (A1 & A2 & A3 & _). split; [|split]; auto.
+  intros y. pose proof (A1 y) as E. unfold ctl in E. inversion E. auto.
+Qed.
+Lemma LI_frame s s' : li_same s s' -> LI s -> LI s'.
+Proof.
+  intros (A1 & A2 & A3) L. constructor.
+  - intros t l H. destruct (A1 t) as [E _]. rewrite E in H. rewrite A2. now apply (li_ho s L).
+  - intros v w l H. rewrite A3 in H. destruct (A1 w) as [E1 E2]. rewrite E1, E2. now apply (li_pd s L).
+Qed.
+
+Definition hkeeps (f : thr -> thr) : Prop := forall r, held (f r) = held r /\ vcp (f r) = vcp r.
+Lemma li_updT s t f : hkeeps f -> li_same s (updT s t f).
+Proof.
+  intros K. split; [|split]; auto. intros y. rewrite th_updT. destruct (Nat.eqb y t) eqn:E; auto.
+  apply Nat.eqb_eq in E. subst. apply K.
+Qed.
+Lemma li_updV s v g : pkeeps g -> li_same s (updV s v g).
+Proof. intros K. apply li_so, so_updV, K. Qed.
+Lemma li_set_pc s t p : li_same s (set_pc s t p).
+Proof. apply li_updT. intros r; auto. Qed.
+Lemma li_finish s t a b : li_same s (finish_op s t a b).
+Proof. unfold finish_op. eapply li_trans; [|apply li_updT; intros r; auto]. repeat split; auto. Qed.
+Lemma li_take_err s t a b s1 : take_err s t = (a, b, s1) -> li_same s s1.
+Proof.
+  unfold take_err. destruct (err (th s t) =? 0); intros H; inversion H; subst; [apply li_refl|].
+  apply li_updT. intros r; auto.
+Qed.
+Lemma li_bad s : li_same s (s_bad s). Proof. repeat split; auto. Qed.
+Lemma li_now s x : li_same s (s_now s x). Proof. repeat split; auto. Qed.
+
+Ltac li_peel :=
+  repeat match goal with
+  | |- li_same ?a ?a => apply li_refl
+  | |- li_same _ (set_pc _ _ _) => eapply li_trans; [|apply li_set_pc]
+  | |- li_same _ (finish_op _ _ _ _) => eapply li_trans; [|apply li_finish]
+  | |- li_same _ (s_bad _) => eapply li_trans; [|apply li_bad]
+  | |- li_same _ (rotate _ _) => eapply li_trans; [|apply li_so, so_rotate]
+  | |- li_same _ (prepare_usleep _ _ _ _ _) => eapply li_trans; [|apply li_so, so_prepare_usleep]
+  | |- li_same _ (wake_by _ _ _) => eapply li_trans; [|apply li_so, so_wake_by]
+  | |- li_same _ (set_running _ _) => eapply li_trans; [|apply li_so, so_set_running]
+  | |- li_same _ (rq_append _ _ _) => eapply li_trans; [|apply li_so, so_rq_append]
+  | |- li_same _ (dequeue _ _ _) => eapply li_trans; [|apply li_so, so_dequeue]
+  | |- li_same _ (updT _ _ _) => eapply li_trans; [|apply li_updT; intros ?; split; reflexivity]
+  | |- li_same _ (updV _ _ _) => eapply li_trans; [|apply li_updV; intros ?; reflexivity]
+  end.
+
+(* acquiring a free lock / completing a hand-off *)
+Lemma LI_acquire s t l : LI s -> lown s l = None ->
+  LI (set_held (s_lown s (updf (lown s) l (Some t))) t l true).
+Proof.
+  intros L Hn. constructor.
+  - intros t' l' H. unfold set_held in H. rewrite th_updT in H. simpl. unfold updf at 1.
+    destruct (Nat.eqb_spec l' l); subst.
+    + destruct (Nat.eqb_spec t' t); subst; auto. simpl in H. apply (li_ho s L) in H. congruence.
+    + destruct (Nat.eqb_spec t' t); subst; [simpl in H; unfold updf in H; apply Nat.eqb_neq in n; rewrite n in H|];
+        now apply (li_ho s L).
+  - intros v w l' H. simpl in H. apply (li_pd s L) in H. destruct H as [H1 H2].
+    unfold set_held. rewrite th_updT. destruct (Nat.eqb_spec w t); subst; simpl; auto.
+    split; auto. unfold updf. destruct (Nat.eqb l' l); auto.
+Qed.
+Lemma LI_take s t l : LI s -> lown s l = Some t -> LI (set_held s t l true).
+Proof.
+  intros L Ho. constructor.
+  - intros t' l' H. unfold set_held in H. rewrite th_updT in H. simpl.
+    destruct (Nat.eqb_spec t' t); subst; [simpl in H; unfold updf in H; destruct (Nat.eqb_spec l' l); subst; auto|];
+      now apply (li_ho s L).
+  - intros v w l' H. simpl in H. apply (li_pd s L) in H. destruct H as [H1 H2].
+    unfold set_held. rewrite th_updT. destruct (Nat.eqb_spec w t); subst; simpl; auto.
+    split; auto. unfold updf. destruct (Nat.eqb l' l); auto.
+Qed.
+
+(* releasing: s1 differs from s only in the owner of l (and scheduler state) *)
+Definition rel_same (s s1 : state) (l : lid) : Prop :=
+  (forall y, held (th s1 y) = held (th s y) /\ vcp (th s1 y) = vcp (th s y)) /\
+  (forall l', l' <> l -> lown s1 l' = lown s l') /\ (forall v, pend (vc s1 v) = pend (vc s v)).
+
+Lemma rel_mutex_unlock s va l s1 : mutex_unlock s va l = Some s1 -> rel_same s s1 l.
+Proof.
+  unfold mutex_unlock. destruct (wqs s (WMx l)) as [|h q].
+  - intros H; inversion H; subst. split; [|split]; auto. intros l' Hl. simpl. now rewrite updf_other.
+  - destruct (lk (th s h)); [discriminate|]. intros H; inversion H; subst. clear H.
+    match goal with |- rel_same s (wake_by ?S va h) l => assert (X : li_same S (wake_by S va h)) by apply li_so, so_wake_by end.
+    destruct X as (X1 & X2 & X3). split; [|split].
+    + intros y. destruct (X1 y) as [-> ->]. rewrite th_updT. simpl. destruct (Nat.eqb y h) eqn:E; auto.
+      apply Nat.eqb_eq in E; subst; auto.
+    + intros l' Hl. rewrite X2. simpl. now rewrite updf_other.
+    + intros v. now rewrite X3.
+Qed.
+Lemma rel_do_unlock s va l s1 : do_unlock s va l = Some s1 -> rel_same s s1 l.
+Proof.
+  unfold do_unlock. destruct (lkd s l); [apply rel_mutex_unlock|].
+  intros H; inversion H; subst. split; [|split]; auto. intros l' Hl. simpl. now rewrite updf_other.
+Qed.
+
+Lemma LI_release s s1 t l : LI s -> rel_same s s1 l -> held (th s t) l = true ->
+  (forall v w, pend (vc s v) = Some (w, l) -> False) ->
+  LI (set_held s1 t l false).
+Proof.
+  intros L (R1 & R2 & R3) Hh Np. constructor.
+  - intros t' l' H. unfold set_held in H. rewrite th_updT in H.
+    destruct (Nat.eqb_spec t' t); subst; simpl in H.
+    + unfold updf in H. destruct (Nat.eqb_spec l' l); subst; [discriminate|].
+      simpl. rewrite R2; auto. apply (li_ho s L). destruct (R1 t) as [<- _]. exact H.
+    + destruct (R1 t') as [E _]. rewrite E in H. simpl.
+      destruct (Nat.eq_dec l' l); subst.
+      * pose proof (li_ho s L _ _ H). pose proof (li_ho s L _ _ Hh). congruence.
+      * rewrite R2; auto. now apply (li_ho s L).
+  - intros v w l' H. simpl in H. rewrite R3 in H. pose proof H as H0. apply (li_pd s L) in H. destruct H as [H1 H2].
+    unfold set_held. rewrite th_updT. destruct (R1 w) as [E1 E2].
+    destruct (Nat.eqb_spec w t); subst; simpl; [|rewrite E1, E2; auto].
+    split; [|congruence]. unfold updf. destruct (Nat.eqb_spec l' l); subst; [exfalso; eauto|]. now rewrite E1.
+Qed.
+
+Lemma LI_release_def s s1 w l v : LI s -> rel_same s s1 l -> pend (vc s v) = Some (w, l) ->
+  LI (updV (set_held s1 w l false) v (fun y => v_pend y None)).
+Proof.
+  intros L (R1 & R2 & R3) Hp. destruct (li_pd s L _ _ _ Hp) as [Hh Hv]. constructor.
+  - intros t' l' H. rewrite th_updV in H. unfold set_held in H. rewrite th_updT in H.
+    destruct (Nat.eqb_spec t' w); subst; simpl in H.
+    + unfold updf in H. destruct (Nat.eqb_spec l' l); subst; [discriminate|].
+      simpl. rewrite R2; auto. apply (li_ho s L). destruct (R1 w) as [<- _]. exact H.
+    + destruct (R1 t') as [E _]. rewrite E in H. simpl.
+      destruct (Nat.eq_dec l' l); subst.
+      * pose proof (li_ho s L _ _ H). pose proof (li_ho s L _ _ Hh). congruence.
+      * rewrite R2; auto. now apply (li_ho s L).
+  - intros v' w' l' H. rewrite vc_updV in H. destruct (Nat.eqb_spec v' v); subst; [discriminate|].
+    unfold set_held in H. rewrite vc_updT, R3 in H. destruct (li_pd s L _ _ _ H) as [H1 H2].
+    rewrite th_updV. unfold set_held. rewrite th_updT. destruct (R1 w') as [E1 E2].
+    destruct (Nat.eqb_spec w' w); subst; simpl; [|rewrite E1, E2; auto].
+    congruence.
+Qed.
+
+Lemma LI_lock_done s t l k r en : LI s -> (r = 0 -> lown s l = Some t) -> LI (lock_done s t l k r en).
+Proof.
+  intros L Ho. unfold lock_done. destruct k.
+  - destruct (Z.eqb_spec r 0).
+    + eapply LI_frame; [apply li_finish|]. apply LI_take; auto.
+    + eapply LI_frame; [apply li_finish|]. auto.
+  - destruct (Z.eqb_spec r 0).
+    + destruct (translate ret en0). eapply LI_frame; [apply li_finish|]. apply LI_take; auto.
+    + eapply LI_frame; [apply li_set_pc|]. auto.
+Qed.
+
+Lemma LI_lock_try s v t l k s' : LI s -> lock_try s v t l k = Some s' -> LI s'.
+Proof.
+  intros L H. unfold lock_try in H. destruct (lown s l) eqn:Eo.
+  - destruct (lkd s l); [|discriminate]. destruct (lk (th s t)); [discriminate|]. inversion H; subst.
+    eapply LI_frame; [|exact L]. li_peel.
+  - inversion H; subst. clear H.
+    (* the owner is written first, then lock_done sets `held`: go through LI_acquire *)
+    unfold lock_done. destruct k.
+    + simpl. eapply LI_frame; [apply li_finish|]. now apply LI_acquire.
+    + simpl. destruct (translate ret en). eapply LI_frame; [apply li_finish|]. now apply LI_acquire.
+Qed.
+
+Lemma LI_notify_read s t c all n : LI s -> LI (notify_read s t c all n).
+Proof.
+  intros L. unfold notify_read. destruct (wqs s (WCv c)); [destruct all|]; (eapply LI_frame; [|exact L]); li_peel.
+Qed.
+
+Lemma no_pend_of_current s v t r w l v' :
+  WF s -> LI s -> runq (vc s v) = Th t :: r -> pend (vc s v) = None ->
+  held (th s t) l = true -> pend (vc s v') = Some (w, l) -> False.
+Proof.
+  intros W L E Pn Hh Hp. destruct (li_pd s L _ _ _ Hp) as [H1 H2].
+  pose proof (li_ho s L _ _ H1). pose proof (li_ho s L _ _ Hh).
+  assert (Hw : w = t) by congruence. rewrite Hw in *.
+  assert (Hv : vcp (th s t) = v) by (apply (wf_rq s W t v); rewrite E; now left).
+  rewrite Hv in H2. rewrite <- H2 in Hp. congruence.
+Qed.
+
+Lemma LI_op_step s v t r o s' : WF s -> LI s -> runq (vc s v) = Th t :: r -> pend (vc s v) = None ->
+  op_step s v t o = Some s' -> LI s'.
+Proof.
+  intros W L E Pn H. destruct o; simpl in H.
+  - destruct (_ && _ && _); inversion H; subst; (eapply LI_frame; [|exact L]); li_peel.
+  - inversion H; subst. eapply LI_frame; [|exact L]. li_peel.
+  - destruct (_ || _).
+    + inversion H; subst. eapply LI_frame; [|exact L]. li_peel.
+    + destruct (lk (th s t)); [discriminate|]. inversion H; subst. eapply LI_frame; [|exact L]. li_peel.
+  - destruct (alive s k && (0 <? e)).
+    + destruct (tstate_eqb (st (th s k)) SLEEPING); inversion H; subst; (eapply LI_frame; [|exact L]); li_peel.
+    + inversion H; subst; (eapply LI_frame; [|exact L]); li_peel.
+  - destruct (held (th s t) l); [inversion H; subst; (eapply LI_frame; [|exact L]); li_peel|].
+    eapply LI_lock_try; eauto.
+  - destruct (held (th s t) l) eqn:Hh; [|inversion H; subst; (eapply LI_frame; [|exact L]); li_peel].
+    destruct (do_unlock s v l) eqn:U; [|discriminate]. inversion H; subst.
+    eapply LI_frame; [apply li_finish|]. eapply LI_release; eauto.
+    + eapply rel_do_unlock; eauto.
+    + intros v' w Hp. eapply no_pend_of_current; eauto.
+  - destruct (held (th s t) l) eqn:Hh; [|inversion H; subst; (eapply LI_frame; [|exact L]); li_peel].
+    destruct (lk (th s t)); [discriminate|]. inversion H; subst.
+    eapply LI_frame; [apply li_set_pc|].
+    (* pend v := Some (t, l) *)
+    pose proof (li_so _ _ (so_prepare_usleep s v t (Some (WCv c)) (expiration_of s d))) as (P1 & P2 & P3).
+    assert (Hv : vcp (th s t) = v) by (apply (wf_rq s W t v); rewrite E; now left).
+    constructor.
+    + intros t' l' H'. rewrite th_updV in H'. destruct (P1 t') as [E1 _]. rewrite E1 in H'.
+      simpl. rewrite P2. now apply (li_ho s L).
+    + intros v' w l' H'. rewrite th_updV. destruct (P1 w) as [E1 E2]. rewrite E1, E2.
+      rewrite vc_updV in H'. destruct (Nat.eqb_spec v' v); subst.
+      * simpl in H'. inversion H'; subst. auto.
+      * rewrite P3 in H'. now apply (li_pd s L).
+  - inversion H; subst. now apply LI_notify_read.
+  - inversion H; subst. now apply LI_notify_read.
+  - inversion H; subst. eapply LI_frame; [|exact L]. li_peel.
+Qed.
+
+Ltac li_frame L := eapply LI_frame; [|exact L]; li_peel.
+
+Lemma take_err_ret s t a b s1 : take_err s t = (a, b, s1) -> (a = 0 /\ b = 0) \/ (a = -1 /\ b = err (th s t) /\ b <> 0).
+Proof.
+  unfold take_err. destruct (Z.eqb_spec (err (th s t)) 0); intros H; inversion H; subst; auto.
+Qed.
+
+Lemma LI_thread_step s v t r s' : WF s -> LI s -> runq (vc s v) = Th t :: r -> pend (vc s v) = None ->
+  thread_step s v t = Some s' -> LI s'.
+Proof.
+  intros W L E Pn H. unfold thread_step in H.
+  destruct (tpc (th s t)) eqn:P.
+  - destruct (prog (th s t)) as [|o os]; [|eapply LI_op_step; eauto].
+    destruct (lk (th s t)); [discriminate|]. destruct (Nat.ltb t (nvc s)); inversion H; subst; li_frame L.
+  - destruct as_sleep; [destruct (err (th s t) =? 0)|]; inversion H; subst; li_frame L.
+  - destruct (take_err s t) as [[a b] s1] eqn:T. inversion H; subst.
+    eapply LI_frame; [|exact L]. eapply li_trans; [eapply li_take_err; eauto|]. li_peel.
+  - destruct (lk (th s t)); [discriminate|]. destruct (take_err s t) as [[a b] s1] eqn:T. inversion H; subst.
+    eapply LI_frame; [|exact L]. eapply li_trans; [eapply li_take_err; eauto|]. li_peel.
+  - destruct (take_err s t) as [[a b] s1] eqn:T. inversion H; subst.
+    eapply LI_frame; [|exact L]. eapply li_trans; [eapply li_take_err; eauto|]. li_peel.
+  - eapply LI_lock_try; eauto.
+  - destruct (take_err s t) as [[a b] s1] eqn:T.
+    assert (L1 : LI s1) by (eapply LI_frame; [eapply li_take_err; eauto|exact L]).
+    destruct ((a <? 0) && (b =? -1)) eqn:Cnd.
+    + destruct (lown s1 l) as [o|] eqn:Eo; [destruct (Nat.eqb_spec o t)|]; inversion H; subst.
+      * apply LI_lock_done; auto.
+      * li_frame L1.
+      * li_frame L1.
+    + destruct (translate a b) as [x y] eqn:Tr. inversion H; subst. apply LI_lock_done; auto.
+      intros ->. exfalso. unfold translate in Tr.
+      destruct (take_err_ret _ _ _ _ _ T) as [[-> ->]|(-> & _ & _)]; simpl in Tr; [inversion Tr|].
+      destruct (Z.eqb_spec b (-1)); [subst; simpl in Cnd; discriminate|inversion Tr].
+  - destruct (sat_add (now s) 1000 <=? now s).
+    + inversion H; subst. li_frame L.
+    + destruct (lk (th s t)); [discriminate|]. inversion H; subst. li_frame L.
+  - destruct (take_err s t) as [[a b] s1] eqn:T. inversion H; subst.
+    eapply LI_frame; [|exact L]. eapply li_trans; [eapply li_take_err; eauto|]. li_peel.
+  - inversion H; subst. now apply LI_notify_read.
+  - destruct (lk (th s x)); [discriminate|]. inversion H; subst. li_frame L.
+  - destruct (wqs s (WCv c)) as [|h q]; [|destruct (Nat.eqb h x)]; inversion H; subst; li_frame L.
+  - inversion H; subst. li_frame L.
+  - destruct (tstate_eqb (st (th s x)) SLEEPING); inversion H; subst; li_frame L.
+  - destruct all; inversion H; subst; li_frame L.
+  - destruct (lk (th s k)); [discriminate|]. inversion H; subst. li_frame L.
+  - destruct (tstate_eqb (st (th s k)) SLEEPING); inversion H; subst; li_frame L.
+  - destruct o; inversion H; subst; li_frame L.
+  - destruct (tstate_eqb _ READY && (err (th s k) =? 0)); inversion H; subst; li_frame L.
+  - inversion H; subst. li_frame L.
+Qed.
+
+Lemma li_idle_decide s v cnt : li_same s (idle_decide s v cnt).
+Proof. unfold idle_decide. destruct (_ || _); li_peel. Qed.
+
+Lemma LI_idler_step s v s' : LI s -> idler_step s v = Some s' -> LI s'.
+Proof.
+  intros L H. unfold idler_step in H. destruct (vipc (vc s v)).
+  - destruct (eject (updV s v (fun y => v_sbq y [])) v (sbq (vc s v)) 0) as [s1 cnt] eqn:Ej. inversion H; subst.
+    eapply LI_frame; [|exact L]. eapply li_trans; [|apply li_updV; intros ?; reflexivity].
+    change s1 with (fst (s1, cnt)). rewrite <- Ej.
+    eapply li_trans; [|apply li_so, so_eject]. li_peel.
+  - destruct (front (slq (vc s v))) as [x|]; [|inversion H; subst; eapply LI_frame; [apply li_idle_decide|exact L]].
+    destruct (now s <? ts (th s x)); [inversion H; subst; eapply LI_frame; [apply li_idle_decide|exact L]|].
+    destruct (lk (th s x)); [discriminate|].
+    match type of H with context [tstate_eqb ?a SLEEPING] => destruct (tstate_eqb a SLEEPING) end;
+      inversion H; subst; li_frame L.
+  - inversion H; subst. li_frame L.
+Qed.
+
+Lemma LI_vstep s v s' : WF s -> LI s -> vstep s v = Some s' -> LI s'.
+Proof.
+  intros W L H. unfold vstep in H. destruct (pend (vc s v)) as [[w l]|] eqn:Pn.
+  - destruct (do_unlock s v l) eqn:U; [|discriminate]. inversion H; subst.
+    eapply LI_release_def; eauto. eapply rel_do_unlock; eauto.
+  - destruct (runq (vc s v)) as [|[t|] r] eqn:E; [discriminate| |].
+    + eapply LI_thread_step; eauto.
+    + eapply LI_idler_step; eauto.
+Qed.
+
+Lemma LI_step s a s' : WF s -> LI s -> step s a = Some s' -> LI s'.
+Proof.
+  intros W L H. destruct a; simpl in H; [eapply LI_vstep; eauto|].
+  inversion H; subst. eapply LI_frame; [apply li_now|exact L].
+Qed.
+
+Lemma LI_init nv kinds home progs : LI (init nv kinds home progs).
+Proof.
+  constructor; simpl.
+  - intros t l. destruct (Nat.ltb t nv); simpl; discriminate.
+  - intros v w l. discriminate.
+Qed.
+
+Theorem LI_reachable nv kinds home progs s : Reach nv kinds home progs s -> LI s.
+Proof.
+  induction 1 as [|s a s' R IH H]; [apply LI_init|].
+  eapply LI_step; eauto. eapply WF_reachable; eauto.
+Qed.
+
+(* ================================================================================================
+   Property theorems
+   ================================================================================================ *)
+
+(* thread t is inside a call wait(c, l) that has not yet put it on the queue *)
+Definition wait_called (s : state) (t : tid) (c : cid) (l : lid) : Prop :=
+  exists d os, prog (th s t) = OWait c l d :: os /\ tpc (th s t) = PIdle /\ held (th s t) l = true.
+(* ... that has executed prepare_usleep (enqueue + sleep) and has not returned from the switch *)
+Definition wait_enqueued (s : state) (t : tid) (c : cid) (l : lid) : Prop :=
+  tpc (th s t) = PWaitSlept c l.
+
+(* cv_atomic_release, first half: as long as the waiter has not been enqueued the lock is still its own;
+   in particular nobody else can have acquired it (mutex and spinlock alike).  And the deferred
+   unlock is pending only for a thread that still owns the lock. *)
+Theorem cv_lock_kept_until_enqueued nv kinds home progs s t c l :
+  Reach nv kinds home progs s -> wait_called s t c l -> lown s l = Some t.
+Proof.
+  intros R (d & os & _ & _ & Hh). eapply li_ho; eauto. eapply LI_reachable; eauto.
+Qed.
+
+Theorem cv_deferred_unlock_owner nv kinds home progs s v w l :
+  Reach nv kinds home progs s -> pend (vc s v) = Some (w, l) -> lown s l = Some w /\ vcp (th s w) = v.
+Proof.
+  intros R H. pose proof (LI_reachable _ _ _ _ _ R) as L. destruct (li_pd s L _ _ _ H) as [H1 H2].
+  split; auto. eapply li_ho; eauto.
+Qed.
+
+(* cv_no_lost_notify, lock part: if another thread N owns the lock, a thread W that has called
+   wait(c, l) is no longer in the not-yet-enqueued phase *)
+Theorem cv_notifier_excludes_unqueued_waiter nv kinds home progs s N W c l :
+  Reach nv kinds home progs s -> lown s l = Some N -> N <> W -> ~ wait_called s W c l.
+Proof.
+  intros R Ho Hne Hc. pose proof (cv_lock_kept_until_enqueued _ _ _ _ _ _ _ _ R Hc). congruence.
+Qed.
+
+(* mutual exclusion of the user lock as seen through `held` (the harness' occupancy counter) *)
+Theorem held_exclusive nv kinds home progs s t1 t2 l :
+  Reach nv kinds home progs s -> held (th s t1) l = true -> held (th s t2) l = true -> t1 = t2.
+Proof.
+  intros R H1 H2. pose proof (LI_reachable _ _ _ _ _ R) as L.
+  pose proof (li_ho s L _ _ H1). pose proof (li_ho s L _ _ H2). congruence.
+Qed.
+
+(* cv_wait_returns_locked: the step that completes a wait (the re-lock loop delivers result 0 to the
+   continuation KWait) leaves the lock owned by the waiter *)
+Definition in_relock (p : pc) (l : lid) : Prop :=
+  exists c ret en, p = PLockTry l (KWait c ret en) \/ p = PLockSlept l (KWait c ret en).
+
+Theorem cv_wait_returns_locked nv kinds home progs s a s' t l :
+  Reach nv kinds home progs s -> step s a = Some s' ->
+  in_relock (tpc (th s t)) l -> tpc (th s' t) = PIdle -> held (th s' t) l = true ->
+  lown s' l = Some t.
+Proof.
+  intros R H _ _ Hh. assert (R' : Reach nv kinds home progs s') by (eapply reach_step; eauto).
+  eapply li_ho; eauto. eapply LI_reachable; eauto.
+Qed.
+
+(* ---- examples: the hypotheses are met by concrete reachable states --------------------------- *)
+Definition ex_progs (t : tid) : list op :=
+  match t with
+  | O => [OCreate 1%nat; OLock 0%nat; OWait 1%nat 0%nat 100; OUnlock 0%nat]
+  | S O => [OLock 0%nat; ONotifyOne 1%nat; OUnlock 0%nat]
+  | _ => []
+  end.
+Definition ex_init := init 1 (fun _ => KMutex) (fun _ => O) ex_progs.
+
+Definition after (s0 : state) (l : list label) : state := fst (run_sched s0 l).
+Lemma reach_after l : forall s0 s, reachable s0 s -> reachable s0 (after s l).
+Proof.
+  induction l as [|a r IH]; intros s0 s R; unfold after; simpl; auto.
+  destruct (step s a) eqn:E; simpl; auto. apply IH. eapply reach_step; eauto.
+Qed.
+
+(* after `create 1; lock 0` the main thread is about to wait: wait_called *)
+Example ex_wait_called : exists s, Reach 1 (fun _ => KMutex) (fun _ => O) ex_progs s /\ wait_called s 0%nat 1%nat 0%nat.
+Proof.
+  exists (after ex_init [LV O; LV O]). split.
+  - apply reach_after, reach_init.
+  - exists 100, [OUnlock 0%nat]. repeat split; vm_compute; reflexivity.
+Qed.
+(* one more step: enqueued, with the deferred unlock pending on vCPU 0 and the lock still owned *)
+Example ex_pending : exists s, Reach 1 (fun _ => KMutex) (fun _ => O) ex_progs s /\
+  pend (vc s O) = Some (0%nat, 0%nat) /\ wait_enqueued s 0%nat 1%nat 0%nat /\ lown s 0%nat = Some 0%nat.
+Proof.
+  exists (after ex_init [LV O; LV O; LV O]). split.
+  - apply reach_after, reach_init.
+  - repeat split; vm_compute; reflexivity.
+Qed.
